@@ -7,6 +7,7 @@ import sysconfig
 import traceback
 from collections.abc import Callable, Iterable
 from dataclasses import dataclass
+from decimal import Decimal
 from fractions import Fraction
 from functools import partial, reduce
 from itertools import accumulate
@@ -321,12 +322,18 @@ def convert_to_bytes(size: int | float | str) -> int:
         # convert to an exact number of bytes (going through float would silently
         # round values that need more than 53 bits, or more than ~15 significant digits)
         try:
-            exact_size = Fraction(value) * unit_factor
-        except (ValueError, ZeroDivisionError):
+            decimal_value = Decimal(value)
+        except ArithmeticError:
+            decimal_value = Decimal("nan")
+        if not decimal_value.is_finite():
             # inf or nan
             raise ValueError(
                 f"Invalid value: {size}. Can't have a non-integer number of bytes"
-            ) from None
+            )
+        if decimal_value != 0 and abs(decimal_value.adjusted()) > 1000:
+            # don't materialize astronomically large or small numbers
+            raise ValueError(f"Invalid value: {size}. Exponent is out of range")
+        exact_size = Fraction(decimal_value) * unit_factor
         if exact_size.denominator != 1:
             raise ValueError(
                 f"Invalid value: {size}. Can't have a non-integer number of bytes"
